@@ -169,6 +169,7 @@ def run(tier):
         # error-path histories (a refused write, then the repaired object and an unrelated one) and large payloads
         E.bf3_failed_then_good(rec, r, wd, 6 if tier == "quick" else 60, enc=True)
         E.bf3_large(rec, r, wd, (300, 4128) if tier == "quick" else (257, 300, 1000, 4096, 4128, 8200))
+        E.bf3_huge(rec, r, wd, tier if not os.environ.get("VERIF_ENVPASS") else "quick")
         # binding self-test: one corrupted recorded field must be rejected
         okreads = [e for e in rec.events if e["op"] == "bf3.read" and e["kind"] == "ok"]
         can = dict(okreads[-1] if okreads else rec.events[-1])
